@@ -22,6 +22,23 @@ CHECKS = {
     ),
 }
 
+REQ_NOTE = ("Observable-level specification: internal goroutine interleavings are covered only through what they make visible at "
+            "the sockets and hooks; bounded to <=4 hosts, <=2 connections per host, outcome alphabet of 16 classes, attempt histories "
+            "of one request exhaustively (two requests in thorough tier). Trusts the fake backend (reference codecs) and the harness tracer ordering.")
+REQ_TECH = ("TLA+ spec RequestObs.tla model-checked with TLC (RequestObsMC); TLC-generated outcome scripts replayed against the real proxy; "
+            "recorded traces validated by TLC against TraceRequestObs.tla (trace validation, code->spec)")
+for _pid, _txt in {
+    "C01": "exactly one reply per request: AtMostOneReply / AllAnsweredAtRest on the spec; every recorded trace is checked for duplicate replies, replies "
+           "after completion and - at quiescence - requests never answered although every attempt was answered or dropped",
+    "C02": "replies carry the token and node of the attempt they answer, on the submitting client's stream; backend stream ids are never reused while in use; "
+           "many clients with equal stream ids, delayed and reordered responses",
+    "C04": "NonIdemNotReexecuted on the spec for all outcome/drop sequences; in traces every backend execution of a request that is not positively idempotent "
+           "must follow only outcomes that guarantee the previous attempt was not applied",
+    "C05": "the retry decision table (Decide) and the traversal rules are checked by TLC (EachHostOnce, AttemptsBounded, SucceedsIfSomeHostOk, NoHostsIffAllTried, "
+           "ReturnsFirstFinal, termination under fairness); every terminal attempt history is replayed and the real attempt sequence/reply must be the prescribed one",
+}.items():
+    CHECKS[_pid] = dict(category="model_checking", technique=REQ_TECH, text=_txt, note=REQ_NOTE, design="§6 " + _pid)
+
 NOT_YET = "check not built yet in this session (planned, see DESIGN.md §6)"
 
 
